@@ -56,6 +56,13 @@ import (
 //           itself between its writes, and by application goroutines calling DeviceLocal.CleanRemoteEntityCaches:
 //           every write is presented once, applied once, acknowledged once; a call that does not return is left to the
 //           parent's goroutine dump (hang@<frame>).
+//   blocking callbacks that do NOT return at once (a synchronous user dialogue inside the callback function), k in {2,3}:
+//           mutual-wait: every callback stays inside its function until each of the others has been presented with the
+//           same write, then gives its verdict from there; silent-by-blocking: some callbacks stay inside their function
+//           until the end of the case (and give their verdict, if any, then) while the others approve / deny from inside theirs. "Presented once to every
+//           callback" must not depend on another callback having returned: it is judged when the process is quiescent
+//           except for the callbacks the harness itself keeps parked (no goroutine is left that could still present the
+//           write). Outcomes by the long / short rules above.
 
 const (
 	c12Fn    = model.FunctionTypeLoadControlLimitListData
@@ -92,13 +99,21 @@ func init() {
 			"part 'aimed' runs 40-60 cheap trials per case (timeout 2-4 ms, deciding verdict delivered by a spinning goroutine at the deadline +- jitter, aim following the outcomes, three cases in four with the feature's callback mutex contended by concurrent AddResponseCallback calls); " +
 			"part 'reconnect': k in {2,3}, 1-2 writes collect j<k approvals (mostly k-1) and time out (15|25|40 ms), the connection is removed and set up again with the same SKI, the writes are re-sent with the same counters (timeout 30 min) and decided one verdict call at a time in a drawn order " +
 			"(all approve, or one denial after at least one approval), every write judged after every call; part 'removals': 300 (thorough 800) writes approved at once by k in {1,2} callbacks while entity [2] of the other peer / of the writer is announced as removed and added again and 0-2 application goroutines call DeviceLocal.CleanRemoteEntityCaches, " +
-			"non-trivial if all writes were handed over and at least one removal/cleanup call ran meanwhile. A case is non-trivial if every write of the plan was decided (all its callbacks seen, its outcome judged) with nothing inconclusive; distinct = distinct plan shapes (values and counters excluded).",
+			"non-trivial if all writes were handed over and at least one removal/cleanup call ran meanwhile; " +
+			"part 'blocking': k in {2,3} callbacks that do not return at once, 1-3 writes of one bound peer, each write in one of three modes: mutual-wait (every callback stays inside its function until each other callback has been presented with the same write, then approves - one in three cases: one of them denies - from inside the callback, timeout 1 h), " +
+			"blocked+deny (a drawn non-empty proper subset of the callbacks, two times in three containing the first registered one, stays inside its function until the end of the case; of the others at least one denies, the rest approve, from inside their functions at once or after the blocked ones have been presented; timeout 1 h: the error result is there when the process is quiescent) and " +
+			"blocked+timeout (the same with all others approving, timeout 30-50 ms: the write ends with exactly one error result, awaited by observing it); blocked callbacks give a late approval / denial or nothing after the end; " +
+			"blocked+verdict-at-end (timeout 1 h, the others approve, the blocked callbacks approve - one in four: deny - when the case ends: the write stays pending with a partial tally while later writes are decided, and is applied / rejected when the last verdict call has returned). " +
+			"After every write: every callback must have been presented with it by the time the process is quiescent except for the callbacks the harness keeps parked (goroutine count == idle count + parked callbacks: nothing is left that could present it), then every write is judged by the long / short rules. " +
+			"A case is non-trivial if every write of the plan was decided (all its callbacks seen, its outcome judged) with nothing inconclusive; distinct = distinct plan shapes (values and counters excluded).",
 		Assumptions: []string{
 			"message handling up to the spawning of the approval callbacks is synchronous in HandleSpineMesssage; the callbacks themselves run on goroutines of the stack and are awaited by goroutine-count quiescence",
 			"a write is identified by the unique value it carries; all writes of a case address different existing changeable elements through a partial filter (a write adding an identifier would be acknowledged without being applied, DESIGN.md D7)",
 			"a write whose binding is removed while it is pending stays authorised (it was authorised when it came in); this is how two peers get pending writes on one feature",
 			"a write datagram without msgCounter cannot be answered by reference; for it only 'answering the callback does not panic or wedge the feature' is asserted",
 			"SetWriteApprovalTimeout is called only while no message is being handled",
+			"part 'blocking': a callback function may take arbitrarily long to return (the statement lets a callback stay silent, and nothing obliges a callback to answer from another goroutine); 'presented to every callback' therefore must not depend on another callback having returned. " +
+				"The verdict 'not presented' is taken at goroutine-count quiescence (idle count + callbacks parked by the harness), after a 3 s grace period that only saves work; watchdogs (15-20 s) make a case inconclusive",
 			"part 'removals': the removed and re-added entities never sent a write, so no pending approval refers to them; the writes are sequential on one connection, their approvals run on the goroutines the stack starts for the callbacks; 'applied once' is read off the core-level data change events (one per write value)",
 		},
 		Parts: []rig.Part{
@@ -110,10 +125,12 @@ func init() {
 			{Name: "aimed", Cases: pick(160, 800), Run: c12Aimed, Quiet: 90 * time.Second, Procs: 4, Workers: 8},
 			{Name: "reconnect", Cases: pick(48, 600), Run: c12Reconnect, Quiet: 90 * time.Second},
 			{Name: "removals", Cases: pick(16, 120), Run: c12Removals, Quiet: 90 * time.Second},
+			{Name: "blocking", Cases: pick(96, 1200), Run: c12Blocking, Quiet: 90 * time.Second},
 			{Name: "mixed-race", Race: true, Cases: pick(30, 400), Run: c12Mixed, Quiet: 120 * time.Second},
 			{Name: "gate-race", Race: true, Cases: pick(20, 300), Run: c12Gate, Quiet: 120 * time.Second},
 			{Name: "expiry-race", Race: true, Cases: pick(10, 60), Run: c12Expiry, Quiet: 120 * time.Second},
 			{Name: "aimed-race", Race: true, Cases: pick(12, 60), Run: c12Aimed, Quiet: 120 * time.Second, Procs: 4, Workers: 8},
+			{Name: "blocking-race", Race: true, Cases: pick(24, 240), Run: c12Blocking, Quiet: 120 * time.Second},
 		},
 	})
 }
@@ -233,6 +250,7 @@ type c12World struct {
 	skip    bool // an inconclusive wait happened: do not judge the rest
 	bw      []*xBlockWriter
 	noClose bool
+	present func(f, cb int, m *api.Message) // part blocking: what a callback does after its invocation was recorded (it may block)
 }
 
 func (cw *c12World) log(format string, a ...any) {
@@ -311,20 +329,27 @@ func newC12World(c *rig.Ctx, pl *c12Plan) *c12World {
 }
 
 func (cw *c12World) onCallback(f, cb int, m *api.Message) {
+	if cw.record(f, cb, m) && cw.present != nil {
+		cw.present(f, cb, m)
+	}
+}
+
+func (cw *c12World) record(f, cb int, m *api.Message) bool {
 	cw.mu.Lock()
 	defer cw.mu.Unlock()
 	cw.events++
 	if m == nil || m.DeviceRemote == nil || m.RequestHeader == nil {
 		cw.strange = append(cw.strange, fmt.Sprintf("callback %d of feature %d invoked with an incomplete message %+v", cb, f, m))
-		return
+		return false
 	}
 	if m.RequestHeader.MsgCounter == nil {
 		cw.noCtrM = append(cw.noCtrM, m)
 		cw.noCtrF = append(cw.noCtrF, f)
-		return
+		return false
 	}
 	k := c12Key{f, cb, m.DeviceRemote.Ski(), *m.RequestHeader.MsgCounter}
 	cw.inv[k] = append(cw.inv[k], m)
+	return true
 }
 
 func (cw *c12World) clientAddr(p *rig.Peer) *model.FeatureAddressType {
@@ -2032,4 +2057,451 @@ func c12Removals(c *rig.Ctx) {
 	c.Count("removals:removal_or_cleanup_calls_during_the_writes", nRemovals.Load())
 	c.NonTrivial(len(writes) == n && nRemovals.Load() > 0)
 	c.Sample(map[string]any{"case": desc, "writes": len(writes), "removal_or_cleanup_calls_during_the_writes": nRemovals.Load()})
+}
+
+// ---------------------------------------------------------------------------
+// part "blocking": callbacks that do not return at once
+
+const (
+	c12BMutual  = "mutual-wait"
+	c12BDeny    = "blocked+deny"
+	c12BTimeout = "blocked+timeout"
+	c12BEnd     = "blocked+verdict-at-end"
+)
+
+type c12BWrite struct {
+	mode string
+	dep  bool  // active callbacks give their verdict only after every blocked callback has been presented
+	bl   []int // the callbacks that stay inside their function until the end of the case
+}
+
+// c12Blk is the behaviour of the callbacks of part blocking. Every callback runs on the goroutine the stack
+// invokes it on; "parked" counts the callbacks that are inside their function waiting for something.
+type c12Blk struct {
+	cw      *c12World
+	info    map[*c12Write]*c12BWrite
+	release chan struct{} // closed at the logical end of the case
+	once    sync.Once
+
+	mu     sync.Mutex
+	parked int
+}
+
+func (b *c12Blk) end() { b.once.Do(func() { close(b.release) }) }
+
+func (b *c12Blk) released() bool {
+	select {
+	case <-b.release:
+		return true
+	default:
+		return false
+	}
+}
+
+func (b *c12Blk) parkedNow() int { b.mu.Lock(); defer b.mu.Unlock(); return b.parked }
+
+// park keeps the calling callback inside its function until cond holds (true) or the case has ended (false).
+func (b *c12Blk) park(cond func() bool) bool {
+	b.mu.Lock()
+	b.parked++
+	b.mu.Unlock()
+	defer func() { b.mu.Lock(); b.parked--; b.mu.Unlock() }()
+	for {
+		if cond != nil && cond() {
+			return true
+		}
+		select {
+		case <-b.release:
+			return false
+		default:
+		}
+		time.Sleep(100 * time.Microsecond)
+	}
+}
+
+// quiet: the goroutine count is back at the idle count plus the callbacks parked by the harness.
+func (b *c12Blk) quiet(max time.Duration) bool {
+	deadline := time.Now().Add(max)
+	stable := 0
+	for time.Now().Before(deadline) {
+		if runtime.NumGoroutine() <= b.cw.baseline+b.parkedNow() {
+			stable++
+			if stable >= 4 {
+				return true
+			}
+		} else {
+			stable = 0
+		}
+		runtime.Gosched()
+		time.Sleep(200 * time.Microsecond)
+	}
+	return false
+}
+
+// wedged looks at the goroutines of the process (two dumps 300 ms apart that must agree): every goroutine is
+// either one of the idle count, or a callback the harness keeps parked, or blocked INSIDE the stack in a wait that
+// has no timeout (channel operation, mutex, wait group, condition) - and there is at least one of the last kind.
+// In that state nothing can move until a parked callback returns. Returns the innermost spine-go frames of the
+// blocked goroutines.
+func (b *c12Blk) wedged() (frames string, ok bool) {
+	snap := func() (ids, frs []string, ok bool) {
+		buf := make([]byte, 4<<20)
+		buf = buf[:runtime.Stack(buf, true)]
+		total, parked := 0, 0
+		for _, g := range strings.Split("\n\n"+string(buf), "\n\ngoroutine ") {
+			head := g
+			if i := strings.Index(g, "\n"); i >= 0 {
+				head = g[:i]
+			}
+			lb, rb := strings.Index(head, "["), strings.Index(head, "]")
+			if lb < 0 || rb < lb {
+				continue
+			}
+			total++
+			state := strings.TrimSpace(strings.SplitN(head[lb+1:rb], ",", 2)[0])
+			body := g
+			if i := strings.Index(body, "\ncreated by "); i >= 0 {
+				body = body[:i]
+			}
+			if strings.Contains(body, "(*c12Blk).park") {
+				parked++
+				continue
+			}
+			untimed := false
+			for _, st := range []string{"chan send", "chan receive", "semacquire", "sync.Mutex.Lock", "sync.RWMutex.Lock", "sync.RWMutex.RLock", "sync.WaitGroup.Wait", "sync.Cond.Wait", "select (no cases)"} {
+				if state == st || strings.HasPrefix(state, st+" (") {
+					untimed = true
+				}
+			}
+			if fr := rig.InnermostSpineFrame(body); untimed && fr != "" && !strings.Contains(fr, "verifPoint") {
+				ids = append(ids, strings.TrimSpace(head[:lb]))
+				frs = append(frs, fr)
+			}
+		}
+		sort.Strings(ids)
+		return ids, frs, len(ids) > 0 && total-parked-len(ids) <= b.cw.baseline
+	}
+	ids1, _, ok1 := snap()
+	if !ok1 {
+		return "", false
+	}
+	time.Sleep(300 * time.Millisecond)
+	ids2, frs, ok2 := snap()
+	if !ok2 || strings.Join(ids1, ",") != strings.Join(ids2, ",") {
+		return "", false
+	}
+	sort.Strings(frs)
+	return strings.Join(frs, ", "), true
+}
+
+func c12ValueOf(m *api.Message) (int64, bool) {
+	if m == nil {
+		return 0, false
+	}
+	d := m.Cmd.LoadControlLimitListData
+	if d == nil || len(d.LoadControlLimitData) != 1 || d.LoadControlLimitData[0].Value == nil || d.LoadControlLimitData[0].Value.Number == nil {
+		return 0, false
+	}
+	return int64(*d.LoadControlLimitData[0].Value.Number), true
+}
+
+func (b *c12Blk) writeOf(m *api.Message) *c12Write {
+	val, ok := c12ValueOf(m)
+	if !ok {
+		return nil
+	}
+	for _, w := range b.cw.pl.writes { // the plan is complete before the first write is sent
+		if w.val == val {
+			return w
+		}
+	}
+	return nil
+}
+
+// presentedTo: the invocation log is keyed by the message counter, which the sender learns only when Send returns,
+// so the write is looked for by the unique value it carries.
+func (b *c12Blk) presentedTo(w *c12Write, cb int) bool {
+	cw := b.cw
+	cw.mu.Lock()
+	defer cw.mu.Unlock()
+	for k, ms := range cw.inv {
+		if k.cb != cb || k.feat != w.feat {
+			continue
+		}
+		for _, m := range ms {
+			if v, ok := c12ValueOf(m); ok && v == w.val {
+				return true
+			}
+		}
+	}
+	return false
+}
+
+func (b *c12Blk) blocked(w *c12Write, cb int) bool { return c12In(b.info[w].bl, cb) }
+
+// verdict delivers the verdict of callback cb from inside the callback function.
+func (b *c12Blk) verdict(w *c12Write, cb int, m *api.Message) {
+	var et model.ErrorType
+	deny := w.v[cb] == c12D || w.v[cb] == c12LD
+	if deny {
+		et = *model.NewErrorTypeFromString("denied by the application")
+	}
+	b.cw.log("-> verdict write #%d cb%d deny=%v (from inside the callback)", w.idx, cb, deny)
+	b.cw.feats[w.feat].ApproveOrDenyWrite(m, et)
+	b.cw.mu.Lock()
+	w.returned[cb] = true
+	b.cw.mu.Unlock()
+	b.cw.log("<- verdict write #%d cb%d returned", w.idx, cb)
+}
+
+func (b *c12Blk) onPresent(f, cb int, m *api.Message) {
+	w := b.writeOf(m)
+	if w == nil || cb >= len(w.v) {
+		return
+	}
+	if b.released() {
+		b.cw.log("cb%d is presented with write #%d only after the end of the case", cb, w.idx)
+		return
+	}
+	b.cw.log("cb%d is presented with write #%d", cb, w.idx)
+	in := b.info[w]
+	switch {
+	case in.mode == c12BMutual:
+		ok := b.park(func() bool {
+			for o := range w.v {
+				if o != cb && !b.presentedTo(w, o) {
+					return false
+				}
+			}
+			return true
+		})
+		if ok {
+			b.verdict(w, cb, m)
+		}
+	case b.blocked(w, cb):
+		b.park(nil)
+		if w.v[cb] != c12S {
+			// blocked+deny / blocked+timeout: the write has had its outcome, the late verdict must not change anything;
+			// blocked+verdict-at-end: the timer is an hour away, this verdict decides the write
+			b.verdict(w, cb, m)
+		}
+	default:
+		if in.dep {
+			ok := b.park(func() bool {
+				for o := range w.v {
+					if b.blocked(w, o) && !b.presentedTo(w, o) {
+						return false
+					}
+				}
+				return true
+			})
+			if !ok {
+				return
+			}
+		}
+		b.verdict(w, cb, m)
+	}
+}
+
+func c12Blocking(c *rig.Ctx) {
+	r := c.Rand
+	k := 2 + r.Intn(2)
+	pl := &c12Plan{k: k, layout: 0, gor: 1, splitA: 1000, label: "blocking", sameMC: r.Intn(2) == 0}
+	info := map[*c12Write]*c12BWrite{}
+	var shapes []string
+	n := 1 + r.Intn(3)
+	for i := 0; i < n; i++ {
+		v := make([]int, k)
+		in := &c12BWrite{mode: []string{c12BMutual, c12BDeny, c12BTimeout, c12BEnd}[r.Intn(4)], dep: r.Intn(2) == 0}
+		if in.mode == c12BMutual {
+			if r.Intn(3) == 0 {
+				v[r.Intn(k)] = c12D
+			}
+		} else {
+			// the blocked callbacks: a non-empty proper subset, two times in three with the first registered one
+			nb := 1
+			if k == 3 && r.Intn(3) == 0 {
+				nb = 2
+			}
+			var bl []int
+			if r.Intn(3) > 0 {
+				bl = append(bl, 0)
+			}
+			for _, x := range r.Perm(k) {
+				if len(bl) < nb && !c12In(bl, x) {
+					bl = append(bl, x)
+				}
+			}
+			in.bl = bl
+			for _, x := range bl {
+				if in.mode == c12BEnd {
+					v[x] = []int{c12A, c12A, c12A, c12D}[r.Intn(4)]
+				} else {
+					v[x] = []int{c12S, c12S, c12LA, c12LD}[r.Intn(4)]
+				}
+			}
+			if in.mode == c12BDeny {
+				var act []int
+				for x := range v {
+					if !c12In(bl, x) {
+						act = append(act, x)
+					}
+				}
+				v[act[r.Intn(len(act))]] = c12D
+				for _, x := range act {
+					if v[x] == c12A && r.Intn(4) == 0 {
+						v[x] = c12D
+					}
+				}
+			}
+		}
+		w := c12NewWrite(pl, 0, 0, v, r.Intn(2) == 0, c12Val(c, i))
+		if in.mode == c12BTimeout {
+			w.class, w.timeout = "short", c12ShortTimeout(c)
+		} else {
+			w.class, w.timeout = "long", time.Hour
+		}
+		info[w] = in
+		pl.writes = append(pl.writes, w)
+		shapes = append(shapes, fmt.Sprintf("%s/dep=%v/bl=%v", in.mode, in.dep && in.mode != c12BMutual, in.bl))
+	}
+	pl.label = "blocking[" + strings.Join(shapes, ",") + "]"
+
+	cw := newC12World(c, pl)
+	blk := &c12Blk{cw: cw, info: info, release: make(chan struct{})}
+	cw.present = blk.onPresent // no write has been sent yet
+	defer func() {
+		blk.end()
+		cw.hooks.ReleaseAll()
+		if !rig.WaitQuiet(cw.baseline, 20*time.Second) {
+			cw.noClose = true
+		}
+		if cw.noClose {
+			spine.SetVerifHook(nil)
+			return
+		}
+		cw.w.Close()
+	}()
+	c.Shape(pl.shape())
+	decided := false
+	defer func() {
+		cw.mu.Lock()
+		ev := cw.events
+		tr := append([]string(nil), cw.trace...)
+		cw.mu.Unlock()
+		c.Events(ev)
+		c.NonTrivial(decided && !cw.skip)
+		if len(tr) > 60 {
+			tr = tr[:60]
+		}
+		c.Sample(map[string]any{"plan": pl.shape(), "trace": tr})
+		if c.Failed() {
+			c.Witness(map[string]any{"plan": pl.shape(), "trace": tr})
+		}
+	}()
+	if !cw.bind(0, 0) {
+		return
+	}
+	if pl.sameMC {
+		cw.w.Peers[0].Ctr = 5000
+	}
+	p := cw.w.Peers[0]
+	for _, w := range pl.writes {
+		in := info[w]
+		w.elem = cw.nextEl[w.feat]
+		cw.nextEl[w.feat]++
+		cw.mu.Lock()
+		w.returned = make([]bool, k)
+		cw.mu.Unlock()
+		cw.feats[w.feat].SetWriteApprovalTimeout(w.timeout)
+		cw.log("peer0 sends write #%d feature=%d elem=%d val=%d ack=%v mode=%s timeout=%v verdicts=%s; callbacks that stay inside their function until the end of the case (and give their verdict, if any, then): %v", w.idx, w.feat, w.elem, w.val, w.ack, in.mode, w.timeout, w.vec(), in.bl)
+		mc := p.Send(model.CmdClassifierTypeWrite, cw.clientAddr(p), cw.feats[w.feat].Address(), w.ack, nil, c12WriteCmd(w.elem, w.val))
+		cw.mu.Lock()
+		w.mc, w.sent, w.sentAt = mc, true, time.Now()
+		cw.mu.Unlock()
+		cw.known[w.peer][w.mc] = true
+		if np := p.PanicCount(); np > 0 {
+			c.Violate("write/panic", "%s\n%s", p.Panics[np-1], strings.Join(cw.trace, "\n"))
+			return
+		}
+		// ---- presented to every callback, whatever the other callbacks are doing
+		all := func() bool {
+			for cb := 0; cb < k; cb++ {
+				if !blk.presentedTo(w, cb) {
+					return false
+				}
+			}
+			return true
+		}
+		if !rig.WaitFor(3*time.Second, all) {
+			// not by the clock: the verdict needs a state in which nothing can present the write any more
+			why := ""
+			for deadline := time.Now().Add(15 * time.Second); why == "" && !all(); {
+				if blk.quiet(500 * time.Millisecond) {
+					why = fmt.Sprintf("the process has no other goroutine left (count %d, idle %d)", runtime.NumGoroutine(), cw.baseline)
+				} else if fr, wedged := blk.wedged(); wedged {
+					why = "every other goroutine of the process is blocked inside the stack in a wait without timeout (" + fr + ")"
+				} else if time.Now().After(deadline) {
+					c.Inconclusive("write #%d: not every callback was presented and the process is neither quiescent nor blocked inside the stack", w.idx)
+					cw.skip = true
+					return
+				}
+			}
+			if !all() {
+				var got []string
+				for cb := 0; cb < k; cb++ {
+					got = append(got, fmt.Sprintf("cb%d:%v", cb, blk.presentedTo(w, cb)))
+				}
+				o := cw.observe(w)
+				cw.mu.Lock()
+				tr := strings.Join(cw.trace, "\n")
+				cw.mu.Unlock()
+				c.Violate("blocking/"+in.mode+"/write-not-presented-to-every-callback",
+					"write #%d (k=%d, mode %s, verdicts=%s): presented %v; %d callbacks are parked inside their functions by the harness and %s, "+
+						"so nothing can present the write to the missing callbacks until a parked callback returns; the write so far: applied=%v success-results=%d error-results=%d\nplan: %s\ntrace:\n%s",
+					w.idx, k, in.mode, w.vec(), got, blk.parkedNow(), why, o.applied, o.succ, o.errs, pl.shape(), tr)
+				cw.skip = true
+				return
+			}
+		}
+		c.Count("blocking:writes_presented_to_every_callback_while_callbacks_were_parked", 1)
+		// ---- every verdict that can be given has been given
+		if !blk.quiet(20 * time.Second) {
+			c.Inconclusive("write #%d: the callbacks that are not parked did not finish within 20s", w.idx)
+			cw.skip = true
+			return
+		}
+		for _, x := range cw.all() {
+			cw.judge(x, false, fmt.Sprintf("at quiescence after write #%d (mode %s)", w.idx, in.mode))
+		}
+		c.Count("blocking:"+in.mode, 1)
+		if c.Failed() {
+			return
+		}
+	}
+	// ---- the short writes end by their timer
+	for _, w := range pl.writes {
+		if w.class != "short" {
+			continue
+		}
+		if !rig.WaitFor(20*time.Second, func() bool { return cw.errOnTap(w) }) {
+			c.Inconclusive("error result of short write #%d not seen within 20s", w.idx)
+			cw.skip = true
+			return
+		}
+		cw.log("timeout/error result of write #%d is on the tap, %d callbacks still parked", w.idx, blk.parkedNow())
+	}
+	for _, x := range cw.all() {
+		cw.judge(x, false, "before the end of the case")
+	}
+	// ---- the logical end of the case: the parked callbacks return (some with a late verdict)
+	blk.end()
+	cw.log("end of the case: parked callbacks released")
+	if !rig.WaitQuiet(cw.baseline, 20*time.Second) {
+		c.Inconclusive("process did not become quiet")
+		cw.skip = true
+		return
+	}
+	cw.finalAudit()
+	decided = true
 }
